@@ -182,8 +182,9 @@ def expected(desc):
                 for key, items in groups.items():
                     out[key] = [v for _, v in sorted(items, key=lambda x: (len(x[0]), x[0]))]
                 for key, n in ins[1].items():
-                    if n == 0:
-                        out.setdefault(key, [])
+                    # a key that received its size token exists in token_map: emitted on size arrival when n = 0, or by
+                    # the forced gather at the end of the stream when elements are missing (possibly all of them)
+                    out.setdefault(key, [])
                 streams[s["outs"][0]] = out
             elif k == "cart":
                 o1, o2 = {}, {}
